@@ -1479,10 +1479,29 @@ std::string writeCellml1x(const IrModel &m, const std::string &version, Rng &rng
         Attrs a;
         addIf(a, "cmeta:id", m.encId);
         w.open("group", a);
-        w.open("relationship_ref", {{"relationship", "encapsulation"}}, true);
+        // CellML 1.x does not order the children of a group: the relationship_ref elements may come before, between or
+        // after the component_ref hierarchies, and a group may carry a (named) containment relationship as well
+        std::vector<int> tops;
         for (size_t i = 0; i < m.comps.size(); ++i) {
             if (m.comps[i].parent < 0 && !m.comps[i].children.empty()) {
-                writeEncapsulation1x(w, m, static_cast<int>(i));
+                tops.push_back(static_cast<int>(i));
+            }
+        }
+        size_t relAt = rng.chance(0.5) ? 0 : rng.below(tops.size() + 1);
+        bool containmentToo = rng.chance(0.2);
+        bool containmentFirst = rng.chance(0.5);
+        for (size_t k = 0; k <= tops.size(); ++k) {
+            if (k == relAt) {
+                if (containmentToo && containmentFirst) {
+                    w.open("relationship_ref", {{"relationship", "containment"}, {"name", "physical"}}, true);
+                }
+                w.open("relationship_ref", {{"relationship", "encapsulation"}}, true);
+                if (containmentToo && !containmentFirst) {
+                    w.open("relationship_ref", {{"relationship", "containment"}, {"name", "physical"}}, true);
+                }
+            }
+            if (k < tops.size()) {
+                writeEncapsulation1x(w, m, tops[k]);
             }
         }
         w.close("group");
